@@ -256,13 +256,13 @@ def run_forked(fn, arg, wall_cap=None):
             os.kill(pid, signal.SIGKILL)
         except ProcessLookupError:
             pass
-    os.waitpid(pid, 0)
+    _, status = os.waitpid(pid, 0)
     if timed_out:
         return {'harness_timeout': True}
     try:
         return json.loads(b''.join(chunks))
     except ValueError:
-        return {'harness_error': 'child died without a result'}
+        return {'harness_error': 'child died without a result (wait status %d)' % status, 'child_signal': status & 0x7f}
 
 
 # ------------------------------------------------------------------------------------
@@ -348,6 +348,17 @@ def _exec_seed(args):
     return run_plan(mod, plan)
 
 
+def crash_to_violation(mod, res):
+    """a run whose interpreter was killed by a signal (SIGABRT from 'Fatal Python error:
+    Cannot recover from stack overflow', SIGSEGV) is a verdict for checks that declare
+    CRASH_CLASS, a harness error for the others"""
+    cls = getattr(mod, 'CRASH_CLASS', None)
+    if cls and res.get('child_signal'):
+        return {'violations': [{'class': cls, 'detail': {'signal': res['child_signal']}}], 'digest': 'crash:%d' % res['child_signal'],
+                'events': 0, 'lines': 0, 'counters': {'interpreter_crashed': 1}, 'keys': [], 'discard': None}
+    return res
+
+
 def run_seed_forked(mod, seed, tier):
     """one run in a fork.  A run that does not come back within the (short) wall cap is
     repeated under the line tracer with a count budget: either it completes (the
@@ -359,7 +370,7 @@ def run_seed_forked(mod, seed, tier):
         res = run_forked(_exec_seed, (mod, seed, tier, extra), 120)
         if res.get('violations'):
             res['schedule_extra'] = extra
-    return res
+    return crash_to_violation(mod, res)
 
 
 def _worker_loop(mod, prop, verif_seed, tier, w, nworkers, n_runs, deadline, digest_upto, wfd):
@@ -447,8 +458,12 @@ def run_plan_of(mod):
     return lambda plan: run_plan(mod, plan)
 
 
+def run_plan_forked(mod, plan, cap=None):
+    return crash_to_violation(mod, run_forked(run_plan_of(mod), plan, cap))
+
+
 def _violates(mod, plan, cls):
-    res = run_forked(run_plan_of(mod), plan, 120 if plan.get('_line_budget') else None)
+    res = run_plan_forked(mod, plan, 120 if plan.get('_line_budget') else None)
     for v in res.get('violations', ()):
         if v['class'] == cls:
             return v
@@ -561,7 +576,7 @@ def replay(mod, prop, path, verbose=False):
     if verbose:
         plan = dict(plan)
         plan['_keep'] = True
-    res = run_forked(run_plan_of(mod), plan, 120)
+    res = run_plan_forked(mod, plan, 120)
     if 'harness_error' in res or 'harness_timeout' in res:
         print('HARNESS-ERROR during replay: %s' % res.get('harness_error', 'timeout'))
         return EXIT_HARNESS
@@ -640,6 +655,40 @@ def digests_only(mod, prop, verif_seed, tier, idxs):
     return out
 
 
+def digests_parallel(mod, prop, verif_seed, tier, idxs, workers):
+    """digests of the given runs computed by `workers` processes (run i on worker i mod workers)"""
+    if workers <= 1:
+        return digests_only(mod, prop, verif_seed, tier, idxs)
+    pipes = []
+    for w in range(workers):
+        r, wfd = os.pipe()
+        pid = os.fork()
+        if pid == 0:
+            try:
+                os.close(r)
+                mine = [i for k, i in enumerate(idxs) if k % workers == w]
+                data = json.dumps(digests_only(mod, prop, verif_seed, tier, mine)).encode()
+                off = 0
+                while off < len(data):
+                    off += os.write(wfd, data[off:off + 65536])
+            finally:
+                os._exit(0)
+        os.close(wfd)
+        pipes.append((r, pid))
+    out = {}
+    for r, pid in pipes:
+        chunks = []
+        while True:
+            c = os.read(r, 1 << 16)
+            if not c:
+                break
+            chunks.append(c)
+        os.close(r)
+        os.waitpid(pid, 0)
+        out.update({int(k): v for k, v in json.loads(b''.join(chunks) or b'{}').items()})
+    return out
+
+
 def process_violations(mod, prop, tier, agg, out):
     """shrinks, matches against known findings, writes and verifies replay files.
     returns (exit code, number of unlisted violations, known lines)"""
@@ -660,7 +709,7 @@ def process_violations(mod, prop, tier, agg, out):
                 out('HARNESS-ERROR nondeterministic: run %d (seed %d) reported %s but does not repeat' % (i, seed, cls))
                 return EXIT_HARNESS, unlisted, known
             small = shrink(mod, plan, cls, shrink_box, v0)
-            res = run_forked(run_plan_of(mod), small, 120)
+            res = run_plan_forked(mod, small, 120)
             vs = [x for x in res.get('violations', ()) if x['class'] == cls]
             if not vs:
                 out('HARNESS-ERROR nondeterministic: shrunk plan of run %d does not repeat %s' % (i, cls))
@@ -711,6 +760,7 @@ def run_check(mod, prop, tier, verif_seed, nworkers=None, budget_s=None, n_runs=
         for (i, seed, what) in agg.harness[:3]:
             out('HARNESS-ERROR run %d (seed %d): %s' % (i, seed, str(what)[-1500:]))
         exit_code = EXIT_HARNESS
+    harness_failed = exit_code == EXIT_HARNESS
     # determinism self-test embedded in every run
     det = {'seeds': st_n, 'ok': None}
     if st_n and exit_code == EXIT_OK:
@@ -729,8 +779,10 @@ def run_check(mod, prop, tier, verif_seed, nworkers=None, budget_s=None, n_runs=
                                                                    [again[i] for i in bad], [fresh.get(i) for i in bad]))
             exit_code = EXIT_HARNESS
     unlisted, known = 0, []
-    if agg.violating and exit_code == EXIT_OK:
-        exit_code, unlisted, known = process_violations(mod, prop, tier, agg, out)
+    if agg.violating and (exit_code == EXIT_OK or harness_failed):
+        # harness errors in some runs must not mask violations found (and replayed) in others
+        code, unlisted, known = process_violations(mod, prop, tier, agg, out)
+        exit_code = code if (code != EXIT_OK or not harness_failed) else EXIT_HARNESS
     wall = time.monotonic() - t0
     # evidence
     samples = []
